@@ -1,9 +1,13 @@
-(** C14 -- scico.solver.lstsq: the code forms  ATA = Aop.T @ Aop,  ATb = Aop.T @ b  and
+(** C14 -- scico.solver.lstsq: the code forms  ATA = Aop.H @ Aop,  ATb = Aop.H @ b  and
     hands them to cg.  In abstract real inner-product spaces X, Y (a complex space is one,
-    with <u,v> = Re(u^H v)):  when the operator used for ".T" is the adjoint of A,
-        At (A x) = At b   <->   x minimises ||A x - b||^2 .
-    For complex A the code's ".T" is the plain transpose, which is not the adjoint: see
-    Findings/C14_lstsq_complex.v. *)
+    with <u,v> = Re(u^H v)), with AH the adjoint of A:
+        AH (A x) = AH b   <->   x minimises ||A x - b||^2 .
+    The conjugate transpose IS the adjoint for real and for complex matrices
+    (Tup.dotc_mvH); LstsqMat.v instantiates this theorem for every complex (hence every
+    real) matrix with no hypothesis left.
+    (Before scico commit 247d4df the code used the plain transpose Aop.T, which is not the
+    adjoint of a complex A; the refuted statement lived in Findings/C14_lstsq_complex.v and
+    is now the positive example [C14_lstsq_complex_example] of Properties/C14.v.) *)
 From Coq Require Import Reals Lra.
 Local Open Scope R_scope.
 
@@ -14,11 +18,11 @@ Section Lstsq.
   Variable ipX : X -> X -> R.
   Variable ipY : Y -> Y -> R.
   Variable A : X -> Y.
-  Variable At : Y -> X.                  (* what the code uses as Aop.T *)
+  Variable AH : Y -> X.                  (* Aop.H *)
 
   Hypothesis A_sub : forall u v, A (xsub u v) = ysub (A u) (A v).
   Hypothesis A_scale : forall t u, A (xscale t u) = yscale t (A u).
-  Hypothesis At_sub : forall u v, At (ysub u v) = xsub (At u) (At v).
+  Hypothesis AH_sub : forall u v, AH (ysub u v) = xsub (AH u) (AH v).
   Hypothesis ipY_sym : forall u v, ipY u v = ipY v u.
   Hypothesis ipY_add_l : forall u v w, ipY (yadd u v) w = ipY u w + ipY v w.
   Hypothesis ipY_scale_l : forall t u w, ipY (yscale t u) w = t * ipY u w.
@@ -27,25 +31,25 @@ Section Lstsq.
   Hypothesis ipX_def : forall u v, ipX (xsub u v) (xsub u v) = 0 -> u = v.
   Hypothesis y_split : forall u v b, ysub u b = yadd (ysub v b) (ysub u v).
   Hypothesis x_add_sub : forall x h, xsub (xadd x h) x = h.
-  (** At is the adjoint of A *)
-  Hypothesis adjoint : forall u w, ipY (A u) w = ipX u (At w).
+  (** AH is the adjoint of A *)
+  Hypothesis adjoint : forall u w, ipY (A u) w = ipX u (AH w).
 
   (** the system lstsq passes to cg *)
-  Definition lstsq_lhs (x : X) : X := At (A x).
-  Definition lstsq_rhs (b : Y) : X := At b.
+  Definition lstsq_lhs (x : X) : X := AH (A x).
+  Definition lstsq_rhs (b : Y) : X := AH b.
 
   Definition obj (b : Y) (x : X) : R := ipY (ysub (A x) b) (ysub (A x) b).
 
   Lemma obj_expand b x x' :
-    obj b x' = obj b x + 2 * ipX (xsub x' x) (xsub (At (A x)) (At b))
+    obj b x' = obj b x + 2 * ipX (xsub x' x) (xsub (AH (A x)) (AH b))
                + ipY (A (xsub x' x)) (A (xsub x' x)).
   Proof.
     unfold obj. rewrite (y_split (A x') (A x) b). rewrite <- A_sub.
     set (r := ysub (A x) b). set (w := A (xsub x' x)).
     rewrite ipY_add_l. rewrite (ipY_sym r (yadd r w)), (ipY_sym w (yadd r w)).
     rewrite !ipY_add_l.
-    assert (E : ipY w r = ipX (xsub x' x) (xsub (At (A x)) (At b))).
-    { unfold w, r. rewrite adjoint, At_sub. reflexivity. }
+    assert (E : ipY w r = ipX (xsub x' x) (xsub (AH (A x)) (AH b))).
+    { unfold w, r. rewrite adjoint, AH_sub. reflexivity. }
     rewrite (ipY_sym r w). rewrite E. lra.
   Qed.
 
@@ -56,7 +60,7 @@ Section Lstsq.
     - intros Hn x'. rewrite (obj_expand b x x'). rewrite Hn.
       rewrite ipX_sub_r. pose proof (ipY_pos (A (xsub x' x))). lra.
     - intros Hmin. apply ipX_def.
-      set (g := xsub (At (A x)) (At b)).
+      set (g := xsub (AH (A x)) (AH b)).
       set (n := ipX g g). set (m := ipY (A g) (A g)).
       assert (Hm : 0 <= m) by apply ipY_pos.
       assert (Hq : forall t, 0 <= 2 * t * n + t * t * m).
@@ -67,7 +71,7 @@ Section Lstsq.
         rewrite (ipY_sym (A g) (yscale t (A g))) in Hmin. rewrite ipY_scale_l in Hmin.
         fold m in Hmin.
         assert (E : ipX (xscale t g) g = t * n).
-        { unfold n. unfold g at 2 4. rewrite <- At_sub. rewrite <- !adjoint.
+        { unfold n. unfold g at 2 4. rewrite <- AH_sub. rewrite <- !adjoint.
           rewrite A_scale, ipY_scale_l. reflexivity. }
         rewrite E in Hmin. lra. }
       (* choose t = - n / (m + 1) *)
